@@ -273,6 +273,18 @@ func runCheck(id, tier string) int {
 	if s := os.Getenv("VERIF_BUDGET_S"); s != "" {
 		plan.BudgetS, _ = strconv.Atoi(s)
 	}
+	if only := os.Getenv("VERIF_ONLY"); only != "" { // debugging aid: run only the runs whose name contains one of these
+		var keep []Run
+		for _, r := range plan.Runs {
+			for _, o := range strings.Split(only, ",") {
+				if strings.Contains(r.Name, o) {
+					keep = append(keep, r)
+					break
+				}
+			}
+		}
+		plan.Runs = keep
+	}
 	c.deadline = c.start.Add(time.Duration(plan.BudgetS) * time.Second)
 	c.scratch = newScratch()
 	defer os.RemoveAll(c.scratch)
